@@ -293,6 +293,24 @@ func (e *emitter) chaos(n int) {
 	}
 }
 
+// cyclicSafe: self-containing containers used only through operations that are meant to cope with
+// them (freeze memoises, len / type tests / indexing / iteration do not recurse). Equality, string
+// conversion, copy and formatting of cyclic values are the known finding O9 and stay excluded.
+func (e *emitter) cyclicSafe() {
+	for _, src := range []string{
+		"a := [1]\na[0] = a\nb := freeze(a)\nn := len(b)\nt := is_immutable_array(b)\n",
+		"m := {k: 1}\nm.self = m\nf := freeze(m)\nn := len(f)\nt := is_immutable_map(f.self)\n",
+		"m := {}\nm.a = [m]\nf := freeze(m)\nx := is_immutable_array(f.a)\n",
+		"a := [0, [1]]\na[1][0] = a\nf := freeze(a)\nn := len(f[1])\n",
+		"a := [0]\na[0] = a\nn := len(a)\nt := type_name(a)\nx := a[0][0][0]\nc := is_array(a[0])\nk := 0\nfor v in a { k += len(v) }\n",
+		"m := {k: 1}\nm.m = m\ndelete(m, \"k\")\nn := len(m)\nk := 0\nfor key, v in m { k += len(key) }\n",
+		"a := [0]\na[0] = a\nb := immutable(a)\nn := len(b[0])\ne := error(a)\nt := is_error(e)\n",
+		"a := [0]\na[0] = a\nb := append(a, 1)\nc := a[0:1]\nn := len(b) + len(c)\nsplice(a, 0, 0, 5)\n",
+	} {
+		e.add("cyclic-safe-ops", src)
+	}
+}
+
 // generate returns about n programs (the fixed boundary families always; the random families fill up).
 func generate(rng *lib.RNG, n int) []hostile {
 	e := &emitter{r: rng, seen: map[string]bool{}}
@@ -302,6 +320,7 @@ func generate(rng *lib.RNG, n int) []hostile {
 	e.stackBoundary()
 	e.iterMutation()
 	e.builtinMisuse(0)
+	e.cyclicSafe()
 	fixed := len(e.out)
 	rest := n - fixed
 	if rest < 300 {
